@@ -587,13 +587,16 @@ impl<'a> G<'a> {
             // per element is "expensive", so the engine memoises) over a possibly absent field
             let (arg, _) = self.path_to(Type::Bytes, 0, true)?;
             let v = self.some_int();
-            let extra = match self.rng.below(3) {
+            let pick = self.rng.below(3);
+            let extra = match pick {
                 0 => "lower(oy)".to_string(),
                 1 => "oy".to_string(),
                 _ => format!("lower({})", self.path_to(Type::Bytes, 0, false)?.0),
             };
-            if let Some(i) = self.spec.field_index("oy") {
-                self.note_field(i);
+            if pick < 2 {
+                if let Some(i) = self.spec.field_index("oy") {
+                    self.note_field(i);
+                }
             }
             let rhs = self.op_rhs(Type::Bytes);
             if self.rng.chance(1, 2) {
